@@ -13,9 +13,9 @@ FUNCTIONS_ENCODED = ["Node._handle_connections (accept, recv, zero read, socket 
                      "PeerConnection.work_read_queue/work_write_queue/close"]
 ASSUMPTIONS = ["'a live connection of that peer' is read narrowly: capabilities exchange succeeded for that identity, or dialled to it",
                "quiescent point = the virtual world has settled (next select would time out)", "each connection carries at most one CER"]
-BOUNDS = {"quick": "histories of depth 2 from 3 initial states (fresh, peer ready inbound, peer ready outbound) and a seeded third of depth 3 over 16 events, 1 peer, 1 application; invariant after every step",
-          "thorough": "all depth-3 histories from the 3 initial states, depth 4 from 'peer ready inbound' for a seeded subset of prefixes"}
-OUTSIDE = ["depth > 4 exhaustive", "3 peers", "2 applications"]
+BOUNDS = {"quick": "every history of depth 3 over 16 events from 3 initial states (fresh, peer ready inbound, peer ready outbound) and every history of depth 4 from 'peer ready inbound'; 1 peer, 1 application; invariant after every step; plus readiness / takeover / foreign-CEA scenarios",
+          "thorough": "every depth-4 history from the 3 initial states; depth 5 from 'peer ready inbound' for 48 seeded two-event prefixes"}
+OUTSIDE = ["depth 5 exhaustive, depth > 5", "3 peers", "2 applications"]
 
 
 def invariant(h):
@@ -64,21 +64,27 @@ def history(ev: List[int]) -> bool:
     """
     hx.begin()
     trace = []
+    # the event indices are the only inputs: fix them (solver-decided bisection branches), then the history runs natively
+    names = [H.EVENTS[hx.concretize_range(e, 0, len(H.EVENTS))] for e in ev]
+    verdict = None
     try:
-        h = H.Hist(init=P["init"])
-        r = invariant(h)
-        if r:
-            return hx.check((ev,), (["<init>"], r), (["<init>"], ""), "invariant broken by the initial state")
-        cers = 0
-        for e in ev:
-            name = H.EVENTS[hx.concretize_range(e, 0, len(H.EVENTS))]
-            trace.append(name)
-            h.apply(name)
+        with hx.untraced():
+            h = H.Hist(init=P["init"])
             r = invariant(h)
             if r:
-                return hx.check((ev,), (trace, r), (trace, ""), "table/readiness invariant broken at a quiescent point")
+                verdict = ((["<init>"], r), (["<init>"], ""), "invariant broken by the initial state")
+            else:
+                for name in names:
+                    trace.append(name)
+                    h.apply(name)
+                    r = invariant(h)
+                    if r:
+                        verdict = ((list(trace), r), (list(trace), ""), "table/readiness invariant broken at a quiescent point")
+                        break
     except Exception as e:
-        return hx.check((ev,), (trace, "raised " + type(e).__name__ + ": " + str(e)[:80]), (trace, ""), "the I/O loop or a worker died")
+        verdict = ((list(trace), "raised " + type(e).__name__ + ": " + str(e)[:80]), (list(trace), ""), "the I/O loop or a worker died")
+    if verdict is not None:
+        return hx.check((ev,), verdict[0], verdict[1], verdict[2])
     return hx.holds((ev,), True, (trace,), "")
 
 
@@ -223,21 +229,20 @@ def specs(tier, seed, carve):
     out.append(dict(id="takeover", fn="takeover", params={}, timeout=600,
                     bound="one peer with two connections: the first READY, awaiting a DWA, or our own dialled connection still awaiting its CEA (simultaneous open); the second READY, awaiting a DWA or disconnecting; either of them is lost (peer gone / node close)"))
     ne = len(H.EVENTS)
+    # histories run natively once the solver has fixed the event indices (~25 ms per history): depth 3 exhaustively from every
+    # initial state and depth 4 exhaustively from 'peer ready inbound' already in the quick tier
     for init in ("fresh", "ready_inbound", "ready_outbound"):
-        out.append(dict(id="history/%s/d2" % init, fn="history", params={"init": init, "depth": 2, "prefix": []}, timeout=600,
-                        bound="every 2-event history over %d events from initial state '%s'" % (ne, init)))
-        firsts = list(range(ne))
-        if q:
-            firsts = rnd.sample(firsts, 5)
-            if init == "ready_inbound" and 0 not in firsts:
-                firsts[0] = 0
-        for f in firsts:
-            out.append(dict(id="history/%s/d3/%s" % (init, H.EVENTS[f]), fn="history", params={"init": init, "depth": 3, "prefix": [f]}, timeout=900,
-                            bound="every 3-event history starting with %s from initial state '%s'" % (H.EVENTS[f], init)))
+        out.append(dict(id="history/%s/d3" % init, fn="history", params={"init": init, "depth": 3, "prefix": []}, timeout=1500,
+                        bound="every 3-event history over %d events from initial state '%s'" % (ne, init)))
+        if q and init != "ready_inbound":
+            continue
+        for f in range(ne):
+            out.append(dict(id="history/%s/d4/%s" % (init, H.EVENTS[f]), fn="history", params={"init": init, "depth": 4, "prefix": [f]}, timeout=1500,
+                            bound="every 4-event history starting with %s from initial state '%s'" % (H.EVENTS[f], init)))
     if not q:
         for f in range(ne):
-            for g in rnd.sample(range(ne), 4):
-                out.append(dict(id="history/ready_inbound/d4/%s/%s" % (H.EVENTS[f], H.EVENTS[g]), fn="history",
-                                params={"init": "ready_inbound", "depth": 4, "prefix": [f, g]}, timeout=1500,
-                                bound="every 4-event history starting with %s, %s from 'peer ready inbound'" % (H.EVENTS[f], H.EVENTS[g])))
+            for g in rnd.sample(range(ne), 3):
+                out.append(dict(id="history/ready_inbound/d5/%s/%s" % (H.EVENTS[f], H.EVENTS[g]), fn="history",
+                                params={"init": "ready_inbound", "depth": 5, "prefix": [f, g]}, timeout=3000,
+                                bound="every 5-event history starting with %s, %s from 'peer ready inbound'" % (H.EVENTS[f], H.EVENTS[g])))
     return out
